@@ -260,7 +260,7 @@ _p('C07', 'Saving and loading a model preserves it (JSON and YAML)',
             ('R4', 'Model.add_asset'), ('R4', 'Model.add_attacker')], floor=30)
 
 _p('C08', 'Viability/necessity labels are the greatest fixed point, in any node order',
-   ['R17', 'R12', 'R1', 'R10', 'R22', 'R20', 'R25'],
+   ['R17', 'R12', 'R1', 'R10', 'R22', 'R20', 'R8', 'R25'],
    decided=['R20 LABELOWN: is_viable / is_necessary are written only by the analysis, the node constructor and the '
             'graph reader; anywhere else only the top value True may be stored (the analysis only ever lowers labels)',
             'R17 T1/T2: per-type viability and necessity equations (exist / notExist / defense from status, or = '
